@@ -7,7 +7,11 @@ RULE = ("scan: file bytes (reference-rendered single-revision documents intact a
         "scan_object_headers_chunked with chunk sizes 1,7,64,300,1100,65536 and parse_with_recovery_options (cfg hooks) against the "
         "byte-level Gallina scan, add_headers, catalog search and trailer synthesis; for rendered documents the recovered table and /Root "
         "are compared with the true offsets of the document.  open: valid files (library Document->to_bytes with classic xref and no "
-        "object streams; reference-rendered documents with permuted numbers/layout, gaps, multi-line dictionaries) x every damage "
+        "object streams; reference-rendered documents with permuted numbers/layout, gaps, multi-line dictionaries; STYLED documents: "
+        "top-level objects of every value kind (dict, array, name, literal/hex string, integer, real, true/false/null, stream) all "
+        "referenced from the page tree, written with every legal delimitation of `obj` (nothing / space / TAB / FF / EOL / a comment "
+        "before a delimiter-initial value, white space or comment before a regular one), `endobj` glued to or separated from the value, "
+        "LF / CR / CRLF line ends, modes all-compact / all-comment / random / plain) x every damage "
         "operation of the catalogue (36 operations in 9 families) and sampled pairs x presets default/new/tolerant/skip_errors/strict; "
         "catalog, page count and EVERY object of the intact file fetched from both opens and compared.  non-trivial = (scan) at least two "
         "headers found, (open) the damage makes the primary parse fail under a recovering preset so that the reconstruction really runs")
@@ -64,4 +68,4 @@ def run(r):
                      "scan_file_finds_all is proved for every file size and chunk size under long_lines_dead_doc (body lines longer than the 1024-byte carry are dead); c19_long_body_line_refuted is the witness outside it (candidate input class, not yet reproduced on the real code)",
                      "catalog_found is proved for the modelled stages 4a-4d under cat_hyp (which bounds the file by one 64 KiB read window)"]
     return standard(r, "c19", ["theories/C19/Proofs.vo", "theories/C19/Chunk.vo", "theories/C19/ChunkLong.vo",
-                                 "theories/C19/ChunkEx.vo", "theories/C19/Catalog.vo"], ["theories/C19/Model.vo"], ["scan", "open"], classify=classify, pre=corpus)
+                                 "theories/C19/ChunkEx.vo", "theories/C19/Catalog.vo", "theories/C19/Compact.vo"], ["theories/C19/Model.vo"], ["scan", "open"], classify=classify, pre=corpus)
